@@ -541,6 +541,35 @@ def run_case(case, ctx):
                     continue
                 ppath = op["path"].rpartition(".")[0]
                 parent = root.find(ppath)
+                if opi % 5 == 3 and node.kind != "map" and not _INV.get("installed"):
+                    # (not in the shards that carry the class invariants: between the two calls the parameter sits in two
+                    # maps, which the invariants - rightly - do not accept as a tree)
+                    # a move: the parameter is added to another map first and then removed from the map it was in
+                    def _maps(n):
+                        yield n
+                        for c in n.children:
+                            if c.kind == "map":
+                                yield from _maps(c)
+                    target = next((m_ for m_ in _maps(root) if m_ is not parent and all(c.key != node.key for c in m_.children)), None)
+                    if target is not None:
+                        ctx.count("moves_to_another_map")
+                        try:
+                            target.obj.add(node.obj)
+                            got = parent.obj.remove(node.key)
+                        except InvariantBroken:
+                            raise
+                        except Exception as e:
+                            ctx.viol("move:add-then-remove-raises", {"op_index": opi, "op": op, "exc": repr(e)})
+                            return
+                        if got is not node.obj:
+                            ctx.viol("remove-returns-other", {"op_index": opi, "op": op, "during": "a move"})
+                            return
+                        parent.children.remove(node)
+                        target.insert(node)
+                        flags["rm_or_model"] += 1
+                        if not walk(opi, op):
+                            return
+                        continue
                 ctx.count("removes")
                 direct = opi % 2 == 0 and parent is not root
                 try:
